@@ -81,6 +81,8 @@ def ref_eval(expr: str, env) -> Any:
         return refsem.ref_evaluate_ahb(expr, env["rc"], _AllTrue())
     except refsem.RefInvalid:
         return "invalid"
+    except KeyError:
+        return "unevaluable"  # a key nobody provided a result for
 
 
 def fc_verdict(expr: str, env, text) -> Tuple[bool, Optional[str]]:
@@ -186,6 +188,14 @@ def make_harness(model: SrcModel, chooser, env, order: str):
             if cv.fields.get("name") == "text_to_be_evaluated_by_format_constraint":
                 cv_text = cv.fields["value"] if cv.fields["value"] is not KeyError else None
         fcv = _AllTrue({k: (cv_text == v) for k, v in env["fc_text"].items()})
+        # a requirement constraint nobody provided a result for cannot be evaluated
+        try:
+            used = [k for (_kd, _w, c) in refsem.parse_ahb_tokens(text) if c is not None for k in refsem.keys_of(c)]
+        except Exception:  # pylint:disable=broad-except
+            used = []
+        missing = [k for k in used if refsem.key_kind(k) == "rc" and k not in env["rc"]]
+        if missing:
+            return Ready(exc=Obj("builtins.NotImplementedError", {"args": (f"There is no content_evaluation method for condition '{missing[0]}'",)}))
         try:
             r = refsem.ref_evaluate_ahb(text, env["rc"], fcv)
         except refsem.RefInvalid as err:
@@ -223,7 +233,7 @@ def record(res: Any) -> Any:
     return rec
 
 
-def run_validation(model: SrcModel, entry: str, node, env, order: str = "fwd", parent: Optional[str] = "absent"):
+def run_validation(model: SrcModel, entry: str, node, env, order: str = "fwd", parent: Optional[str] = "absent", positional: bool = False):
     """entry: 'deep' | 'group' | 'segment' | 'element' | 'pool' | 'level'. Returns ('ret', records, node object) | ('raise', cls)."""
 
     def run(ch):
@@ -235,9 +245,11 @@ def run_validation(model: SrcModel, entry: str, node, env, order: str = "fwd", p
         try:
             if entry == "deep":
                 deep = Obj("maus.models.anwendungshandbuch.DeepAnwendungshandbuch", {"meta": None, "lines": [obj]})
-                res = h.call(f"{VAL}.validate_deep_anwendungshandbuch", deep, soll_is_required=env["soll"])
+                res = h.call(f"{VAL}.validate_deep_anwendungshandbuch", deep, env["soll"]) if positional else \
+                    h.call(f"{VAL}.validate_deep_anwendungshandbuch", deep, soll_is_required=env["soll"])
             elif entry == "level":
-                res = h.call(f"{VAL}.validate_segment_level", obj, soll_is_required=env["soll"])
+                res = h.call(f"{VAL}.validate_segment_level", obj, env["soll"]) if positional else \
+                    h.call(f"{VAL}.validate_segment_level", obj, soll_is_required=env["soll"])
             elif entry == "group":
                 res = h.call(f"{VAL}.validate_segment_group", obj, pv, env["soll"])
             elif entry == "segment":
@@ -392,6 +404,18 @@ def families(tier: str) -> List[Dict[str, Any]]:
     entries = [("ZD2", "m", "X [1]"), ("Z15", "m", "X [1]"), ("E03", "m", "X [2]"), ("E01", "m", "X [1]")]
     for inp in (None, "E01", "E03"):
         cases.append({"family": "pool", "entry": "pool", "node": valuepool("P", entries, inp), "env": {"rc": {"1": F, "2": U}, "fc_text": {}, "soll": True}, "parent": "IS_REQUIRED"})
+    # entries whose expression carries a format constraint: only the requirement outcome decides whether a qualifier is offered
+    for entries, rc in (([("Q1", "m", "X [1][903]"), ("Q2", "m", "X [2]")], {"1": F, "2": U}),
+                        ([("Q1", "m", "X [903]"), ("Q2", "m", "X [1][904]")], {"1": U}),
+                        ([("Q1", "m", "X [1][903]"), ("Q2", "m", "X [2][904]")], {"1": F, "2": F})):
+        for inp in (None, "Q1", "Q2"):
+            cases.append({"family": "pool", "entry": "pool", "node": valuepool("P", entries, inp),
+                          "env": {"rc": rc, "fc_text": {"903": "never entered", "904": "never entered either"}, "soll": True}, "parent": "IS_REQUIRED"})
+    # a single-entry pool always offers its entry - also when its expression could not be evaluated with the given results
+    for expr in ("X [77]", "X [1][903]", "Muss [77] U [1]"):
+        for inp in (None, "Q1", "Q9"):
+            cases.append({"family": "pool", "entry": "pool", "node": valuepool("P", [("Q1", "m", expr)], inp),
+                          "env": {"rc": {"1": U}, "fc_text": {"903": "never entered"}, "soll": True}, "parent": "IS_REQUIRED"})
     # D: free texts with format constraints that look at the entered input (C15)
     texts = ["abc", "", None, "xyz", " abc", "q"]
     for combo in itertools.permutations(texts, 3) if tier == "thorough" else [("abc", "", "xyz"), ("", "abc", None), ("xyz", None, "abc"), (" abc", "abc", "q"), ("abc", "abc", "")]:
